@@ -9,6 +9,8 @@ import vlib
 from props import fam_mtz as F
 
 
+MANIFEST = {'technique': 'Coq proof (row-buffer invariant for all recipes and number lengths, spec tables inverse by vm_compute) + byte-exact differential check of the loop body + conversion round-trip oracle on gemmi', 'text': 'Theorems: the 256-byte row formatter never stores outside its buffer for any recipe (min_width <= 32) and formatted numbers of any length (snapshot behaviour refuted with witnesses incl. 1e30 under the default %.3f); every tag mapped by the two default MTZ->CIF specs regenerated from /repo is mapped back by the CIF->MTZ table to the same type and label, status codes o/f -> 1/0. Loop body compared byte-exactly with the extracted machine (incl. .30f/.60f/.99f formats); oracle on gemmi: MtzToCif::write_cif -> read -> as_refln_blocks -> CifToMtz preserves hkl set/order, cell, space group, mapped values to printed precision, NaN stays missing, free-flag membership, rectangular valid loop, x options (skip_empty, trim, less_anomalous, free flag value, custom spec lines).', 'note': 'Trusted: Coq kernel; translator gen/dump_mtzspec.cpp; extraction; harness. No axioms. Merged files only; loop_rectangular is oracle-only.'}
+
 def gen_rows_case(rng):
     """rows: only float columns with custom formats (the model predicts every byte of the loop body)."""
     fmts = ['', 'g', '.5g', '.3f', 'f', '.10f', '12.4f', '_10.2f', '-12.5e', '32.3f', '.15f', '20.12e', '.30f', '.60f', '.99f']
